@@ -24,13 +24,13 @@ def classify(spec, dyadic):
     return "exact"
 
 
-def small_stream(r, spec, n, weights, fault_p=0.0):
+def small_stream(r, spec, n, weights, fault_p=0.0, cats=None):
     """dyadic data with few bits: all sums are exact in binary64"""
     vals = [v for v in gen.critical_values(spec) if v != v or abs(v) == gen.INF or
             (abs(v) <= 64 and float(v * 1024).is_integer())]
     out = []
     for _ in range(n):
-        d = gen.datum(r, vals, fault_p, plain=True)
+        d = gen.datum(r, vals, fault_p, plain=True, cats=cats)
         out.append((d, r.choice(weights)))
     return out
 
